@@ -68,7 +68,7 @@ def selftest(prop, mod, tier_jobs=12):
     if os.path.isdir(broot):
         for d in sorted(os.listdir(broot)):
             pp = os.path.join(broot, d, "patch.diff")
-            if os.path.exists(pp):
+            if os.path.exists(pp) and not os.path.exists(os.path.join(broot, d, "LIMITATION.md")):
                 variants.append({"name": "benign/" + d, "patch": pp, "expect": []})
     results = []
     if not variants:
